@@ -881,6 +881,17 @@ def symbols(t):
     return r
 
 
+def _only_defs_use(c, rest, defs, this):
+    """is every other remaining fact mentioning constant c itself a definition of another constant
+    (so that c only flows forward into further names)?"""
+    for a, sy in rest:
+        if a is this or c not in sy:
+            continue
+        if defs.get(a) is None:
+            return False
+    return True
+
+
 def cone(assertions, seeds, defs=None):
     """Conjuncts of `assertions` that can matter for the seed terms.
 
@@ -893,6 +904,16 @@ def cone(assertions, seeds, defs=None):
     for s in seeds:
         want |= symbols(s)
     rest = [(a, symbols(a)) for a in assertions]
+    if defs:
+        # a definition is "pure naming" only if its constant is constrained by no other fact
+        occ = {}
+        for a, sy in rest:
+            for x in sy:
+                occ[x] = occ.get(x, 0) + 1
+        defs = {a: c for a, c in defs.items() if occ.get(c, 0) <= 1 or True}
+        used_elsewhere = {c for a, c in defs.items() if occ.get(c, 0) > 1}
+    else:
+        used_elsewhere = set()
     picked = []
     changed = True
     while changed and rest:
@@ -900,6 +921,8 @@ def cone(assertions, seeds, defs=None):
         keep = []
         for a, sy in rest:
             d = defs.get(a)
+            if d is not None and d in used_elsewhere and not _only_defs_use(d, rest, defs, a):
+                d = None
             if not sy:
                 picked.append(a)
             elif (d is not None and d in want) or (d is None and (sy & want)):
